@@ -136,7 +136,7 @@ def imgHdr : P ImgHdr := do
       let d ← bool
       pure (some (a, b, c, d))
     else pure none
-  -- optional: `icc CODER PLANMODE <hex profile>` (CODER: 0 prefix, 1 ANS, 2/3 + LZ77, 4/5 + over-long LZ77 distances) embeds the profile through the ICC command encoder
+  -- optional: `icc CODER PLANMODE <hex profile>` (CODER: 0 prefix, 1 ANS, 2/3 + LZ77, 4/5 + over-long LZ77 distances, 6/7 + final copy past enc_size) embeds the profile through the ICC command encoder
   let icc ← (do
     let st ← get
     match st with
